@@ -20,6 +20,7 @@ T_XML_ESC = "mathml_unescaped_name"     # <ci>name</ci> without escaping & < >
 T_LATEX_SET = "latex_finiteset_brace"   # \left{ ... \right} (bare braces after \left / \right)
 T_SBML_NEGINF = "sbml_neginf"           # sbml(-oo) == "inf"
 T_SBML_NOT = "sbml_not_strprinter"      # SbmlPrinter::bvisit(Not) prints its argument with StrPrinter (** And( ...)
+T_RECIP = "pow_of_reciprocal"           # same root cause as KF-C16-02: (c/a)**q holds (a**-1)**q, pow() gives a**-q
 
 PRINTERS = ["unicode", "latex", "mathml", "julia_str", "sbml"]
 
@@ -41,11 +42,12 @@ def dump_depth(d):
 
 
 def has_complex_mul_form(d):
-    """a Complex whose imaginary part is not +-1 (printed with a multiplication dot)"""
+    """a Complex that the Unicode printer may print with a multiplication dot: imaginary part not +-1, or rational parts
+    (a Mul coefficient is split into numerator / denominator first)"""
     if isinstance(d, list) and d:
         if d[0] == "Complex":
-            im = d[2]
-            return im not in (["Integer", "1"], ["Integer", "-1"])
+            re_, im = d[1], d[2]
+            return im not in (["Integer", "1"], ["Integer", "-1"]) or re_[0] == "Rational"
         if d[0] in ("Symbol", "Constant", "Integer", "Rational", "RealDouble", "ComplexDouble"):
             return False
         return any(has_complex_mul_form(x) for x in tr.kids(d))
@@ -173,7 +175,7 @@ class C44(Check):
                    "the Unicode printer's wrong signs / reversed exponent rows are outside the statement (well-formedness only)",
                    "SBML: zoo, Complex, constants other than pi/E, names the SBML parser reserves are outside the fragment; results "
                    "with zero or non-finite doubles are skipped as in C16"]
-    tiers = {"quick": {"examples": 2400}, "thorough": {"examples": 110000}}
+    tiers = {"quick": {"examples": 1600}, "thorough": {"examples": 40000}}
     batch = 6
 
     def enumerate(self, tier):
@@ -317,6 +319,9 @@ class C44(Check):
                 return
             if self.tag_active(T_SBML_NOT) and not_with_compound_arg(d):
                 self.skip("known:" + T_SBML_NOT)
+                return
+            if self.tag_active(T_RECIP) and tr.has_pow_of_reciprocal(d):
+                self.skip("known:" + T_RECIP)
                 return
             if sb is None:
                 raise engine.GeneratorDefect("fragment item without SBML re-parse")
